@@ -267,6 +267,16 @@ def subscript(I, base, key):
         except IndexError: raise RaiseSignal('IndexError')
     if isinstance(base, Solution):
         return base.field(key)
+    if isinstance(base, Fam):
+        if isinstance(key, sp.Basic) and key.is_number:
+            if int(key) in base.special: return base.special[int(key)]
+            if base.elem is None: return base.default
+            return base.elem.subs(base.idx, key) if isinstance(base.elem, sp.Basic) else base.elem
+        if isinstance(key, sp.Basic):
+            if base.special: raise Unsupported('mode array with explicitly stored entries read at a symbolic index')
+            if base.elem is None: return base.default
+            return base.elem.subs(base.idx, key) if isinstance(base.elem, sp.Basic) and base.idx is not None and key != base.idx else base.elem
+        raise Unsupported('mode array index %r' % (key,))
     raise Unsupported('subscript of %r' % (type(base).__name__,))
 
 
@@ -282,6 +292,9 @@ def getattr_builtin(I, o, attr):
             return (sp.Integer(len(o)),) + ((sp.Integer(len(o[0])),) if len(o) and isinstance(o[0], Vec) else ())
         if attr == 'size': return sp.Integer(len(o))
         if attr == 'ndim': return sp.Integer(2 if len(o) and isinstance(o[0], Vec) else 1)
+        return BuiltinMethod(o, attr)
+    if isinstance(o, Fam):
+        if attr in ('shape', 'size'): raise Unsupported('shape of a mode array')
         return BuiltinMethod(o, attr)
     if isinstance(o, (dict, list, str, set, tuple, GList, frozenset)): return BuiltinMethod(o, attr)
     if isinstance(o, sp.Basic):
@@ -321,6 +334,7 @@ def fill(shape, value):
     if isinstance(shape, Vec): return mapv(lambda x: value, shape)
     if isinstance(shape, (int, sp.Integer)): return Vec([value] * int(shape))
     if isinstance(shape, sp.Basic) and shape.is_number: return Vec([value] * int(shape))
+    if isinstance(shape, sp.Basic) and shape.is_Symbol and shape.is_integer: return Fam(value)    # one entry per mode
     if isinstance(shape, sp.Basic): return value      # *_like of a scalar
     raise Unsupported('array shape %r' % (shape,))
 
@@ -537,6 +551,11 @@ def call_lib(I, name, args, kw, node=None):
     if c == 'range':
         from .sx import GenIter
         if len(args) == 1 and args[0] is NLEN: return GenIter(GENIDX)
+        if any(isinstance(a, sp.Basic) and not a.is_number for a in args):
+            a_ = [S(q) for q in args]
+            if len(a_) == 1: return SymRange(sp.Integer(0), a_[0])
+            if len(a_) == 2: return SymRange(a_[0], a_[1])
+            raise Unsupported('symbolic range with a step')
         return range(*[I._int(a) for a in args])
     if c == 'arange':
         if len(args) == 1 and args[0] is NLEN: raise Unsupported('arange over request length')
